@@ -67,8 +67,21 @@ func Rand(rng *rand.Rand, name string, server string, unit uint8, addr int, type
 		default:
 			f.Length = uint8(1 + rng.Intn(60))
 		}
+	} else if rng.Intn(6) == 0 {
+		// Length only means something for strings; a definition built as a struct literal or read from a config may carry
+		// one anyway (a valid definition: Validate accepts it) and it must not change anything
+		f.Length = []uint8{1, 2, 3, 8, 20, 255}[rng.Intn(6)]
 	}
 	return f
+}
+
+// NewBuilder creates the request builder the way callers do: with the zero defaults or with defaults of its own. Every
+// generated field names its server and unit explicitly (unit 0 included), so the defaults must not matter.
+func NewBuilder(sel uint64) *modbus.Builder {
+	if sel%3 == 1 {
+		return modbus.NewRequestBuilder("default-device:502", 9)
+	}
+	return modbus.NewRequestBuilder("", 0)
 }
 
 // Invalidate turns f into an invalid definition.
@@ -127,6 +140,21 @@ func List(rng *rand.Rand, n int, typeSel int, nServers, nUnits int, limit int) m
 			addr = 0
 		}
 		f := Rand(rng, fmt.Sprintf("f%d", i), servers[rng.Intn(nServers)], units[rng.Intn(nUnits)], addr, typeSel)
+		if len(out) > 0 && rng.Intn(8) == 0 {
+			// a near twin of an earlier field: same target and address, one attribute different
+			f = out[rng.Intn(len(out))]
+			f.Name = fmt.Sprintf("f%d", i)
+			switch {
+			case f.Type == modbus.FieldTypeString && f.Length > 1 && f.Length < 255:
+				f.Length += uint8(2*rng.Intn(2)) - 1
+			case f.Type == modbus.FieldTypeBit:
+				f.Bit = (f.Bit + 1 + uint8(rng.Intn(15))) % 16
+			case f.Type == modbus.FieldTypeByte || f.Type == modbus.FieldTypeUint8 || f.Type == modbus.FieldTypeInt8:
+				f.FromHighByte = !f.FromHighByte
+			case f.Type != modbus.FieldTypeCoil:
+				f.ByteOrder = packet.ByteOrder(regref.Orders[rng.Intn(len(regref.Orders))])
+			}
+		}
 		out = append(out, f)
 	}
 	return out
